@@ -171,6 +171,8 @@ def run_parallel(cmds, timeout=3600):
     """Run several commands concurrently; returns list of (rc, out, err) in order.  Outputs go to
     temporary files: with pipes a process whose pipe is full would block until its turn to be read."""
     import tempfile, time
+    # a cap for development-time sweeps over mutated trees, where the harness may run away
+    timeout = min(timeout, int(os.environ.get("EV_RUN_TIMEOUT", timeout)))
     tdir = os.path.join(CACHE, "tmp")
     os.makedirs(tdir, exist_ok=True)
     procs = []
